@@ -27,7 +27,14 @@ class Ob(object):
         t = timeout if timeout is not None else {"quick": 60, "thorough": 600}
         if not isinstance(t, dict):
             t = {"quick": t, "thorough": t}
-        self.timeout = {"quick": t.get("quick", 60), "thorough": t.get("thorough", t.get("quick", 60))}
+        # The per-case budgets written in props/*.py were measured by whoever built the obligation; they are
+        # CPU seconds.  A safety factor keeps a loaded or slower machine from turning a discharging obligation
+        # into an inconclusive one (it costs nothing when the obligation discharges).
+        import os
+        qs = float(os.environ.get("VERIF_TIMEOUT_SCALE_QUICK", "2.5"))
+        ts = float(os.environ.get("VERIF_TIMEOUT_SCALE_THOROUGH", "1.5"))
+        self.timeout = {"quick": int(t.get("quick", 60) * qs),
+                        "thorough": int(t.get("thorough", t.get("quick", 60)) * ts)}
         self.tiers = tuple(tiers)
         self.desc = desc
         self.outside = outside
